@@ -10,6 +10,7 @@ import (
 	"net"
 	"os"
 	"path/filepath"
+	"runtime"
 	"strconv"
 	"sync"
 	"sync/atomic"
@@ -194,56 +195,30 @@ func c13Run(sc c13Prog) (vk.Result, error) {
 	defer sl.Close()
 	_, serverPort, _ := net.SplitHostPort(sl.Addr().String())
 
-	// ck-client's main()
-	localPort, err := c13FreePort()
-	if err != nil {
-		return res, fmt.Errorf("harness: %v", err)
-	}
-	cfg := map[string]interface{}{
-		"Transport": "direct", "ProxyMethod": "shadowsocks", "EncryptionMethod": sc.Enc,
-		"UID": base64.StdEncoding.EncodeToString(uid), "PublicKey": base64.StdEncoding.EncodeToString(ecdh.Marshal(pub)),
-		"ServerName": "www.bing.com", "NumConn": sc.NumConn, "BrowserSig": sc.Browser, "StreamTimeout": 300, "UDP": sc.UDP,
-	}
-	cfgBytes, _ := json.Marshal(cfg)
-	cfgPath := filepath.Join(dir, "ckclient.json")
-	if err := os.WriteFile(cfgPath, cfgBytes, 0o600); err != nil {
-		return res, fmt.Errorf("harness: %v", err)
-	}
-	c13MainMu.Lock()
-	os.Args = []string{"ck-client", "-c", cfgPath, "-s", "127.0.0.1", "-p", serverPort, "-i", "127.0.0.1", "-l", localPort, "-verbosity", "panic"}
-	flag.CommandLine = flag.NewFlagSet(os.Args[0], flag.ExitOnError)
-	go main()
-	// main() has read its arguments once it listens
+	// ck-client's main(). The local port is chosen by the harness and may be taken by another process before main()
+	// binds it (main() then ends with log.Fatal, which the harness turns into the end of that goroutine): try again
+	var localPort string
 	var probe net.Conn
-	for i := 0; i < 500; i++ {
-		if sc.UDP {
-			// listening once the port can no longer be bound
-			lp, _ := strconv.Atoi(localPort)
-			if u, berr := net.ListenUDP("udp", &net.UDPAddr{IP: net.IPv4(127, 0, 0, 1), Port: lp}); berr != nil {
-				err = nil
-				break
-			} else {
-				u.Close()
-				err = fmt.Errorf("port still free")
-			}
-		} else {
-			probe, err = net.Dial("tcp", "127.0.0.1:"+localPort)
-			if err == nil {
-				break
-			}
+	for attempt := 0; ; attempt++ {
+		if attempt == 8 {
+			return res, fmt.Errorf("harness: ck-client could not bind a local port in 8 attempts")
 		}
-		time.Sleep(10 * time.Millisecond)
-	}
-	c13MainMu.Unlock()
-	log.SetLevel(log.PanicLevel)
-	log.SetOutput(io.Discard)
-	if err != nil {
-		return res, fmt.Errorf("harness: ck-client does not listen on its local port: %v", err)
+		localPort, err = c13FreePort()
+		if err != nil {
+			return res, fmt.Errorf("harness: %v", err)
+		}
+		var ok bool
+		ok, probe, err = c13StartMain(sc, dir, uid, ecdh.Marshal(pub), serverPort, localPort)
+		if err != nil {
+			return res, err
+		}
+		if ok {
+			break
+		}
 	}
 	if probe != nil {
 		probe.Close() // a proxied connection that never sends anything: no session is made for it
 	}
-
 	// the proxied connections
 	var total int64
 	var wg sync.WaitGroup
@@ -399,4 +374,61 @@ func TestVerif_C13_Program(t *testing.T) {
 		}
 		return sc
 	}, c13Run)
+}
+
+// c13StartMain runs ck-client's main() with a configuration file for the scenario and waits until it listens on
+// localPort. ok=false: main() ended with a fatal error (the port was taken in the meantime).
+func c13StartMain(sc c13Prog, dir string, uid, pub []byte, serverPort, localPort string) (bool, net.Conn, error) {
+	cfg := map[string]interface{}{
+		"Transport": "direct", "ProxyMethod": "shadowsocks", "EncryptionMethod": sc.Enc,
+		"UID": base64.StdEncoding.EncodeToString(uid), "PublicKey": base64.StdEncoding.EncodeToString(pub),
+		"ServerName": "www.bing.com", "NumConn": sc.NumConn, "BrowserSig": sc.Browser, "StreamTimeout": 300, "UDP": sc.UDP,
+	}
+	cfgBytes, _ := json.Marshal(cfg)
+	cfgPath := filepath.Join(dir, "ckclient.json")
+	if err := os.WriteFile(cfgPath, cfgBytes, 0o600); err != nil {
+		return false, nil, fmt.Errorf("harness: %v", err)
+	}
+	c13MainMu.Lock()
+	os.Args = []string{"ck-client", "-c", cfgPath, "-s", "127.0.0.1", "-p", serverPort, "-i", "127.0.0.1", "-l", localPort, "-verbosity", "panic"}
+	flag.CommandLine = flag.NewFlagSet(os.Args[0], flag.ExitOnError)
+	var fatal atomic.Bool
+	log.StandardLogger().ExitFunc = func(int) {
+		fatal.Store(true)
+		runtime.Goexit()
+	}
+	go main()
+	// main() has read its arguments once it listens
+	var probe net.Conn
+	var err error
+	for i := 0; i < 500 && !fatal.Load(); i++ {
+		if sc.UDP {
+			// listening once the port can no longer be bound
+			lp, _ := strconv.Atoi(localPort)
+			if u, berr := net.ListenUDP("udp", &net.UDPAddr{IP: net.IPv4(127, 0, 0, 1), Port: lp}); berr != nil {
+				err = nil
+				break
+			} else {
+				u.Close()
+				err = fmt.Errorf("port still free")
+			}
+		} else {
+			probe, err = net.Dial("tcp", "127.0.0.1:"+localPort)
+			if err == nil {
+				break
+			}
+		}
+		time.Sleep(10 * time.Millisecond)
+	}
+	time.Sleep(30 * time.Millisecond) // a main() that lost the port to someone else has failed by now
+	c13MainMu.Unlock()
+	log.SetLevel(log.PanicLevel)
+	log.SetOutput(io.Discard)
+	if fatal.Load() {
+		return false, nil, nil
+	}
+	if err != nil {
+		return false, nil, fmt.Errorf("harness: ck-client does not listen on its local port: %v", err)
+	}
+	return true, probe, nil
 }
